@@ -4,6 +4,7 @@ import (
 	"fmt"
 	"runtime"
 	"runtime/debug"
+	"strconv"
 	"strings"
 
 	"verifharness/core"
@@ -51,7 +52,7 @@ func (r *c15Runner) keep(k c15Kept) {
 			}
 		}
 	}
-	if (k.large && nl >= 2) || (!k.large && n >= 8) {
+	if (k.large && nl >= 6) || (!k.large && n >= 8) {
 		r.kept = append(r.kept[:oldest], r.kept[oldest+1:]...)
 	}
 	r.kept = append(r.kept, k)
@@ -144,10 +145,16 @@ func (r *c15Runner) step(step *core.Case) (info c15StepInfo, err error) {
 			return r.bulk(step)
 		}
 		in := []byte(step.In)
+		kind := step.Kind
+		var built interface{}
+		if strings.HasPrefix(kind, "sized:") {
+			kind = strings.TrimPrefix(kind, "sized:")
+			in, built = c15SizedDoc(kind, step.Ints)
+		}
 		work := append([]byte(nil), in...)
 		var fresh rjson.ValueReader
-		want, wp, werr := c15Read(&fresh, step.Kind, append([]byte(nil), in...))
-		got, gp, gerr := c15Read(&r.vr, step.Kind, work)
+		want, wp, werr := c15Read(&fresh, kind, append([]byte(nil), in...))
+		got, gp, gerr := c15Read(&r.vr, kind, work)
 		r.calls++
 		if (gerr == nil) != (werr == nil) {
 			return fmt.Errorf("%s on the reused reader: err=%v (p=%d); a brand-new reader: err=%v (p=%d)", step.Kind, gerr, gp, werr, wp)
@@ -160,7 +167,11 @@ func (r *c15Runner) step(step *core.Case) (info c15StepInfo, err error) {
 				return fmt.Errorf("%s on the reused reader returned %.200s; a brand-new reader returns %.200s", step.Kind, fmt.Sprintf("%#v", got), fmt.Sprintf("%#v", want))
 			}
 			// tie the fresh result to the reference model as well
-			if end := ref.Skip(in, ref.MaxDepth); end >= 0 {
+			if built != nil {
+				if !ref.Equal(got, built) {
+					return fmt.Errorf("%s of a built document (sizes %v) on the reused reader returned %.200s; the document was built from %.200s", kind, step.Ints, fmt.Sprintf("%#v", got), fmt.Sprintf("%#v", built))
+				}
+			} else if end := ref.Skip(in, ref.MaxDepth); end >= 0 {
 				if tree, _, derr := ref.Decode(in); derr == nil && !ref.Equal(want, tree) {
 					return fmt.Errorf("%s on a brand-new reader returned %.200s; the reference tree is %.200s", step.Kind, fmt.Sprintf("%#v", want), fmt.Sprintf("%#v", tree))
 				}
@@ -194,6 +205,72 @@ func (r *c15Runner) step(step *core.Case) (info c15StepInfo, err error) {
 		return nil
 	})
 	return info, perr
+}
+
+// c15SizedDoc builds the document of a sized step and the tree it denotes. Ints = [variant,
+// base, n1, n2, ...]. One size: an array of n1 numbers base+i (an object "k<i>": base+i for
+// ReadObject or variant 1). Several sizes: those containers as siblings in one parent
+// ({"rows":[...]} for ReadObject, otherwise an array).
+func c15SizedDoc(kind string, ints []int64) ([]byte, interface{}) {
+	if len(ints) < 3 {
+		return []byte("[]"), []interface{}{}
+	}
+	variant, base, sizes := ints[0], ints[1], ints[2:]
+	var b []byte
+	one := func(n int64, obj bool) interface{} {
+		if n < 0 {
+			n = 0
+		}
+		if obj {
+			m := make(map[string]interface{}, n)
+			b = append(b, '{')
+			for i := int64(0); i < n; i++ {
+				if i > 0 {
+					b = append(b, ',')
+				}
+				b = append(b, '"', 'k')
+				b = strconv.AppendInt(b, i, 10)
+				b = append(b, '"', ':')
+				b = strconv.AppendInt(b, base+i, 10)
+				m["k"+strconv.FormatInt(i, 10)] = float64(base + i)
+			}
+			b = append(b, '}')
+			return m
+		}
+		a := make([]interface{}, 0, n)
+		b = append(b, '[')
+		for i := int64(0); i < n; i++ {
+			if i > 0 {
+				b = append(b, ',')
+			}
+			b = strconv.AppendInt(b, base+i, 10)
+			a = append(a, float64(base+i))
+		}
+		b = append(b, ']')
+		base += 1000003
+		return a
+	}
+	if len(sizes) == 1 {
+		v := one(sizes[0], kind == "ReadObject" || (variant%2 == 1 && kind == "ReadValue"))
+		return b, v
+	}
+	rows := make([]interface{}, 0, len(sizes))
+	if kind == "ReadObject" {
+		b = append(b, `{"rows":`...)
+	}
+	b = append(b, '[')
+	for i, n := range sizes {
+		if i > 0 {
+			b = append(b, ',')
+		}
+		rows = append(rows, one(n, variant%2 == 1))
+	}
+	b = append(b, ']')
+	if kind == "ReadObject" {
+		b = append(b, '}')
+		return b, map[string]interface{}{"rows": rows}
+	}
+	return b, rows
 }
 
 // c15BulkDoc builds the document of a bulk step: n members of one kind.
